@@ -16,7 +16,8 @@
 From Coq Require Import NArith List Bool Arith Lia.
 From CL Require Import Base.Sx Base.Res Base.Str Regex.Rx Model.Entry Model.Parse
   Model.ParseFormats Generated.RxParser Generated.RxC02 Generated.C02Facts Model.Unescape
-  Proofs.C02License Proofs.UnescapeProofs Proofs.C02Po Proofs.C02Props Proofs.C02Roundtrip.
+  Proofs.C02License Proofs.UnescapeProofs Proofs.C02Po Proofs.C02Props Proofs.C02Roundtrip
+  Proofs.C02Blocks.
 Import ListNotations.
 
 (* ---- (a) the License rule -------------------------------------------------------------
@@ -188,23 +189,39 @@ Example C02_roundtrip_properties_example :
       mkview KWhitespace [10%N] (KStr [10%N]) (Some [10%N]) (Ok (Some [10%N])) None].
 Proof. vm_compute. repeat split. Qed.
 
-(* ---- stated, NOT PROVED (DESIGN.md section 4, C02) -------------------------------------------
-   blocks_properties :
-     forall bs, Forall legal_block bs -> adjacent_ok bs ->
-       walk_properties (concat (map text bs)) = Ok (entries_of bs)
-   where a block is an entity text (optionally with its attached comment and the single
-   newline between), a standalone comment, a whitespace run, or a maximal junk region
-   (inert garbage lines with the blank lines that follow them), and adjacent_ok is the local
-   separation condition (entity followed by a whitespace block starting with a newline or by
-   end of file; standalone comment followed by a whitespace block with two newlines or by
-   end of file; no two adjacent whitespace blocks; junk newline-terminated and followed by an
-   entity or comment block or end of file; the first block not an entity whose comment
-   contains License -- that case is C02_license_properties).
-   C02_roundtrip_<fmt> :
-     forall rs lay, NoDup (map key rs) -> legal rs -> legal_layout lay ->
-       entities (walk_<fmt> (print lay rs)) = map (fun r => (key r, raw r, attached_comment lay r)) rs
-       /\ junk (walk_<fmt> (print lay rs)) = garbage lay
-   Proved of them: the one-record, one-line case above for properties (the step lemmas for
-   the comment, whitespace, key, escaped-end and trailing-whitespace expressions are in
-   Proofs/C02Roundtrip.v); nothing for dtd, ini, inc, po.  The executable counterpart of
-   both statements is the oracle of harness/props/c02.py for all seven formats. *)
+(* ---- the block theorem for .properties (DESIGN.md section 4, C02) -------------------------
+   Proofs/C02Blocks.v.  A [block] is a run of blank characters, a standalone comment, or an
+   entity line with an optional attached comment, a key, a separator and a value that may
+   continue over several lines ending in an odd number of backslashes; [legal_block] and
+   [adjacent_ok] are decidable (boolean) predicates defined there:
+     - a comment block is followed by the end of the file or by a blank block containing a
+       newline; an entity without final newline is the last block; if the first block is an
+       entity, its attached comment does not contain "License" (that case is
+       C02_license_properties);
+   [entries_of] computes, from the blocks and their offsets only, the exact entry list (kind,
+   span, key span, value span, pre-comment span, inner whitespace span). *)
+Theorem C02_blocks_properties : forall bs : list C02Blocks.block,
+  Forall C02Blocks.legal_block bs -> C02Blocks.adjacent_ok bs ->
+  walk_properties (C02Blocks.file_text bs) = Ok (C02Blocks.entries_of bs).
+Proof. exact C02Blocks.blocks_properties. Qed.
+
+(* Multi-record round trip: a file printed from any list of legal blocks parses back to
+   exactly its records (key text, raw value text, attached comment) in order, exactly its
+   standalone comments, and NO junk. *)
+Theorem C02_roundtrip_properties_multi : forall bs : list C02Blocks.block,
+  Forall C02Blocks.legal_block bs -> C02Blocks.adjacent_ok bs ->
+  exists es, walk_properties (C02Blocks.file_text bs) = Ok es /\
+    map (C02Blocks.entity_record (C02Blocks.file_text bs))
+        (filter (C02Blocks.is_kind KEntity) es) = C02Blocks.records_of bs /\
+    map (fun e => C02Blocks.span_text (C02Blocks.file_text bs) (e_span e))
+        (filter (C02Blocks.is_kind KComment) es) = C02Blocks.comments_of bs /\
+    filter (C02Blocks.is_kind KJunk) es = [].
+Proof. exact C02Blocks.C02_roundtrip_properties_multi. Qed.
+
+(* ---- stated, NOT PROVED ---------------------------------------------------------------------
+   Still missing from the block theorem above: junk regions (inert garbage between records:
+   "exactly the garbage is reported as junk"), blanks between a value and its newline,
+   indentation between an attached comment and its key; and the whole statement
+   C02_roundtrip_<fmt> for dtd, ini, inc, po (nothing proved there beyond C01 and the license
+   and unescape theorems).  The executable counterpart of all of it is the oracle of
+   harness/props/c02.py for all seven formats. *)
